@@ -122,6 +122,42 @@ def run(ctx, model):
                                    [b"\x22" * 8, b"\x33" * 8], rep)
                 ctx.count("frames-checked", len(impl["frames"]))
     tr.flush(ctx, model, tlines, tpend)
+    # ---- LogixDriver sessions with transfers larger than the connection (fragmented reads and writes, multi-service
+    # packets): every write to the socket is exactly ONE well-formed frame
+    import struct as _st2
+    from props.c04 import sized_project
+    from props import logix as lx
+    for i in range(ctx.budget(6, 40)):
+        large = rng.random() < 0.6
+        size = rng.choice([5000, 9000, 12100]) if large else rng.choice([700, 1500])
+        p = sized_project(rng, [(size, "big"), (30, "o1"), (30, "o2")])
+        sess = lx.Session(model, p, conn_large=large)
+        if sess.open_error is None:
+            try:
+                core.with_budget(60, sess.d.write, ("big{%d}" % size, [rng.randrange(-128, 128) for _ in range(size)]))
+                core.with_budget(60, sess.d.read, "big{%d}" % size)
+                core.with_budget(60, sess.d.write, ("big{%d}" % size, [1] * size), ("o1{4}", [1, 2, 3, 4]))
+                core.with_budget(60, sess.d.read, "o1{30}", "o2{30}", "big{%d}" % size)
+            except BaseException as e:  # noqa
+                if isinstance(e, (KeyboardInterrupt, SystemExit)):
+                    raise
+        ctx.case("logix-session-frames", ("lsf", i, size, large))
+        ctx.count("frames-checked", len(sess.sock.frames))
+        granted_s, granted_c = set(), set()
+        for r in sess.sock.replies:
+            if r is not None and len(r) >= 24:
+                cmd, ln, se, status = _st2.unpack_from("<HHII", r)
+                if cmd == 0x65 and status == 0:
+                    granted_s.add(se)
+                if cmd == 0x6F and len(r) >= 48 and r[40] in (0xD4, 0xDB) and r[42] == 0:
+                    granted_c.add(_st2.unpack_from("<I", r, 44)[0])
+        for k, f in enumerate(sess.sock.frames):
+            why = tr.check_frame(f, granted_s, granted_c)
+            if why:
+                ctx.violation("malformed-frame:" + why.split(" ")[0], {"index": i, "tag_bytes": size, "connection": 4000 if large else 500,
+                              "frame_index": k, "frame": f.hex()[:200], "frame_bytes": len(f)}, why)
+                break
+        sess.close()
     # ---- a long connected history across the wrap of the sequence counter
     tr.run_c17(ctx, model, focus="C11")
 
